@@ -118,6 +118,10 @@ def build(case):
         s.positions = s.positions - s.positions.min(axis=0)        # non-negative coordinates
         if spread and p % 2 == 1:
             s.positions[:, 0] += 100. * p
+        if p >= 1 and nonfinite < 0 and case['seed'][2] % 4 == 1 and s.n_spikes >= 4:
+            # curation left the LOWEST cluster ids of a later probe without spikes (merged into a new, higher id)
+            lo = np.unique(s.clusters)[:2]
+            s.spike_clusters = np.where(np.isin(s.clusters, lo), s.clusters.max() + 1, s.clusters).astype(s.clusters.dtype)
         if rng.random() < 0.25:
             s.notes['fortran'] = 'all'            # column-major .npy files (MATLAB exporters), in any probe incl. the first
         if p == nonfinite:
@@ -373,6 +377,16 @@ def _oracle_c11(ctx, desc, f0, specs, out, m, order, probe_of, idx_in, before, a
                 ids = np.unique(s.clusters).astype(np.int64) + offsets['clusters'][p]
                 if ids.max() >= len(cp) or not (cp[ids] == p).all():
                     V('cluster_probes', 'cluster_probes does not map the clusters of probe %d back to it' % p)
+                    break
+                # ids that only a per-cluster table of the probe names (clusters that lost their spikes in curation): their
+                # renumbered rows must lead back to the probe as well
+                named = sorted(set(int(l.split('\t' if '\t' in l else ',')[0]) for t_ in TSVS if t_ in s.tsv for l in s.tsv[t_].strip().split('\n')[1:]))
+                named = [c for c in named if c <= int(s.clusters.max())]
+                ctx.mon('table_only_ids', len([c for c in named if c not in set(np.unique(s.clusters).tolist())]))
+                wrong = [c for c in named if c + offsets['clusters'][p] >= len(cp) or cp[c + offsets['clusters'][p]] != p]
+                if wrong:
+                    V('cluster_probes', 'the metadata rows of clusters %r of probe %d are renumbered to ids that cluster_probes gives to probe %r' % (
+                        wrong[:5], p, [int(cp[c + offsets['clusters'][p]]) if c + offsets['clusters'][p] < len(cp) else None for c in wrong[:5]]))
                     break
         # (4) renumbered TSVs
         for t in TSVS:
